@@ -45,7 +45,7 @@ fn dead_fragment() -> pending_packet::FragmentRef { pending_packet::FragmentRef 
 
 //@h props=C10,C11,C02,C13 tier=quick timeout=1200 role=sync-emission also_quick=C02
 //@fn HalfConnection::emit_sync_frame, frame::Frame::write (sync)
-//@bound ANY sender state as far as emit_sync_frame reads it: frame ids (next, base) any, packet ids equal or one outstanding, pending/resend queue lengths in {0,1}, keepalive None or any interval, credit any isize, idle time and RTO any < 2^40
+//@bound ANY sender state as far as emit_sync_frame reads it: frame ids (next, base) any, packet ids equal or one outstanding, a further packet waiting in the send queue or not, pending/resend queue lengths in {0,1}, keepalive None or any interval, credit any isize, idle time and RTO any < 2^40
 //@assume crc::compute stubbed (constant); small constructor (4-slot windows)
 #[kani::proof]
 #[kani::unwind(18)]
@@ -64,6 +64,9 @@ fn o10_3_sync_frame_emission() {
         let r = hc.packet_sender.emit_packet(0);
         std::mem::forget(r);
     }
+    // a backlog in the application's send queue (packets not yet pulled, e.g. because the window is full) must not matter
+    let backlog: bool = kani::any();
+    if backlog { hc.packet_sender.enqueue_packet(Box::new([2]), 0, crate::SendMode::Unreliable, 0); }
     let pend: bool = kani::any();
     let rsnd: bool = kani::any();
     if pend { hc.pending_queue.push_back(pending_queue::Entry::new(dead_fragment(), false)); }
